@@ -12,12 +12,12 @@ import (
 
 func init() {
 	register(&Property{
-		ID:        "C01",
-		Roots:     []string{"overlord/state"},
-		Technique: "typestate extraction (status dataflow over the SSA CFG giving a from-set for every SetStatus/SetToWait site) compared with the allowed transition table; loop-latch gating of mustWait; guarded-sink / ordering on taskrunner.run, Ensure and abortTasks",
+		ID:          "C01",
+		Roots:       []string{"overlord/state"},
+		Technique:   "typestate extraction (status dataflow over the SSA CFG giving a from-set for every SetStatus/SetToWait site) compared with the allowed transition table; loop-latch gating of mustWait; guarded-sink / ordering on taskrunner.run, Ensure and abortTasks",
 		Explanation: "Structural necessary conditions for 'a failed change undoes exactly the work it had done, in reverse order': (R1) every status-setting site of package overlord/state has exactly the (from-set -> to) transition of the reviewed table (Do->Doing, Undo->Undoing, Doing->Done, Undoing->Undone, Abort->Undo|Hold, Do->Hold, Doing->Abort, Done->Undo, Undo->Done only without undo handler, ->Error only on the handler-error branch) and every table entry exists; (R2) mustWait in Undo status advances over the tasks halted by t only across Ready() statuses and answers false only after the whole loop; (R3) abortTasks pushes every halted task of every visited task onto its work list; (R4) on the handler-error branch abortLanes(t.Change(), t.Lanes()) precedes SetStatus(Error); (R5) Ensure turns an Undo task without undo handler into Done only after mustWait(t) returned false; (R6) every transition that can unblock other tasks (to Done, Hold, Undone, Undo) in the completion closure and tryUndo is followed by EnsureBefore unless the list of tasks it can unblock is empty; (R7) the healthy-lane exemption of Change.abortLanes: a task is live exactly in effective status Do/Doing/Done, live tasks mark hasLive and every other task marks hasDead for lanes outside the kill list, and a lane task is spared only across hasLive[lane] && !hasDead[lane].",
-		NotDecided: "multi-lane recursion in Change.abortLanes/abortTasks terminating with the right set; interaction of concurrent completions; that the change then settles (C03).",
-		Run:        runC01,
+		NotDecided:  "multi-lane recursion in Change.abortLanes/abortTasks terminating with the right set; interaction of concurrent completions; that the change then settles (C03).",
+		Run:         runC01,
 	})
 }
 
@@ -239,6 +239,87 @@ func runC01(c *Ctx) {
 			}
 		}
 		c.Check(okWeb, "overlord/state.(*Change).abortTasks#same-worklist", at.Pos(), "the slice appended to is the `tasks` work list", "halted tasks are appended to something other than the work list being iterated")
+	}
+
+	// R3, continued: every task taken from the work list that was not seen before has its lanes
+	// collected and its halted tasks enqueued, whatever its status (no early `continue`)
+	if len(hl) == 1 {
+		inner := hl[0]
+		var outer *RangeLoop
+		for _, fl := range ForLoops(at) {
+			if fl.Header != inner.Header && fl.Body != nil && fl.Body.Dominates(inner.Header) {
+				outer = fl
+			}
+		}
+		if outer == nil {
+			c.Undecided("overlord/state.(*Change).abortTasks#work-list-loop", at.Pos(), "the loop over the work list was not found")
+		} else {
+			seenT := Atom{Name: "seenTasks[t.id]", Match: func(cd Cond) Pol {
+				return cd.BoolIs(func(v ssa.Value) bool {
+					lk, ok := Strip(v).(*ssa.Lookup)
+					return ok && IsParam(lk.X, at, 3)
+				})
+			}}
+			targets := []struct {
+				name string
+				hdr  *ssa.BasicBlock
+			}{{"halted-tasks", inner.Header}}
+			for _, ll := range LoopsOver(at, VRes(0, ToFn(P.FuncObj("overlord/state.(*Task).Lanes")))) {
+				if outer.Body.Dominates(ll.Header) {
+					targets = append(targets, struct {
+						name string
+						hdr  *ssa.BasicBlock
+					}{"lanes", ll.Header})
+					break
+				}
+			}
+			for _, tg := range targets {
+				hdr := tg.hdr
+				q := ReachQ{Fn: at, From: &Loc{outer.Body, -1},
+					CutInstr: func(in ssa.Instruction) bool { return in.Block() == hdr },
+					CutEdge: func(b *ssa.BasicBlock, s int) bool {
+						return AtomEdges(seenT)(b, s) && !inner.Body.Dominates(b)
+					},
+					SinkEdge: func(b *ssa.BasicBlock, s int) bool { return b.Succs[s] == outer.Header }}
+				r := q.Run()
+				c.Check(!r.Found, "overlord/state.(*Change).abortTasks#every-visited-task-propagates-"+tg.name, outer.Body.Instrs[0].Pos(), "a task not seen before always reaches the "+tg.name+" loop", "a task taken from the work list can be skipped (whatever its status) without its "+tg.name+" being followed: the abort no longer travels through it: "+P.PathString(r.Path))
+			}
+		}
+	}
+
+	// ---- R8
+	c.Rule("C01-R8", "G+W", "a task's tomb is killed on abort only for tasks in Abort status (TaskRunner.abortLanes); the task status field is stored only by SetStatus/SetToWait and the JSON reader", 3)
+	ral := P.Func("overlord/state.(*TaskRunner).abortLanes")
+	kill := P.FuncObj("gopkg.in/tomb.v2.(*Tomb).Kill")
+	statusM := P.FuncObj("overlord/state.(*Task).Status")
+	abortConst := P.Const("overlord/state.AbortStatus")
+	kc := CallSites(ral, kill)
+	if len(kc) == 0 {
+		c.Undecided("overlord/state.(*TaskRunner).abortLanes#kill", ral.Pos(), "no tomb.Kill call found")
+	}
+	for i, cc := range kc {
+		c.Guarded(fmt.Sprintf("overlord/state.(*TaskRunner).abortLanes#kill<=Abort#%d", i+1), ral, cc,
+			[]Clause{{Cmp("t.Status()==AbortStatus", VRes(0, ToFn(statusM)), token.EQL, VConstObj(abortConst))}}, nil)
+	}
+	fStatusField := P.Field("overlord/state.Task.status")
+	allowedWriters := map[string]string{
+		"overlord/state.(*Task).SetStatus":     "the setter",
+		"overlord/state.(*Task).SetToWait":     "the setter for Wait",
+		"overlord/state.(*Task).changeStatus":  "shared tail of the setters",
+		"overlord/state.(*Task).UnmarshalJSON": "reads the persisted status",
+		"overlord/state.newTask":               "initial status",
+	}
+	nW := 0
+	for _, st := range P.FieldStores(fStatusField) {
+		fn := st.Parent()
+		name := SSAFuncName(fn)
+		nW++
+		_, ok := allowedWriters[name]
+		c.touch(fn)
+		c.Check(ok, "field:Task.status#writer:"+name, st.Pos(), "status stored by "+allowedWriters[name], "the task status is stored directly by "+name+", outside SetStatus/SetToWait: the transition table (R1), the change's ready/abort bookkeeping and the notices are bypassed")
+	}
+	if nW == 0 {
+		c.Undecided("field:Task.status#writers", token.NoPos, "no store to Task.status found")
 	}
 
 	// ---- R4
@@ -508,7 +589,7 @@ func runC01(c *Ctx) {
 				for _, at := range []Atom{hasL, noD} {
 					gate := AtomEdges(at)
 					q := ReachQ{Fn: al, From: &Loc{rl.Body, -1}, CutInstr: isAppend,
-						CutEdge: func(b *ssa.BasicBlock, s int) bool { return gate(b, s) || b.Succs[s] == rl.Done },
+						CutEdge:  func(b *ssa.BasicBlock, s int) bool { return gate(b, s) || b.Succs[s] == rl.Done },
 						SinkEdge: func(b *ssa.BasicBlock, s int) bool { return b.Succs[s] == rl.Header }}
 					r := q.Run()
 					c.Check(!r.Found, "overlord/state.(*Change).abortLanes#exempt<="+at.Name, rl.Header.Instrs[0].Pos(), "a lane task is spared only across "+at.Name, "a lane task can be spared from the abort without "+at.Name+"; path: "+P.PathString(r.Path))
